@@ -41,8 +41,16 @@ StrBad(r) ==
               \/ (x.ok /\ (x.invalid_utf8 \/ x.s # ly.root.s))
               \* between two repaired strings of the same document: borrowed <=> nothing had to be repaired or unescaped in this one
               \/ (x.ok /\ ep = "cow_between" /\ (x.b = "yes") # (Utf8Valid(r.lit) /\ ~ly.root.esc /\ ~ly.badsur))
-  IN {ep \in DOMAIN r.res : "strict" \in Checks /\ BadStrict(ep)}
+      \* sonic-rs built with its utf8_lossy feature: from_slice itself is a lossy decoder (recorded under "flossy")
+      BadFeatureLossy(ep) ==
+        LET x == r.flossy[ep] IN
+        \/ x.panic
+        \/ /\ ~x.panic
+           /\ \/ x.ok # lossyOk
+              \/ (x.ok /\ (x.invalid_utf8 \/ x.s # ly.root.s))
+  IN {ep \in DOMAIN r.res : "strict" \in Checks /\ "flossy" \notin DOMAIN r /\ BadStrict(ep)}
      \cup {"lossy:" \o ep : ep \in {e \in DOMAIN r.lossy : "lossy" \in Checks /\ BadLossy(e)}}
+     \cup (IF "flossy" \in DOMAIN r THEN {"feature-lossy:" \o ep : ep \in {e \in DOMAIN r.flossy : "lossy" \in Checks /\ BadFeatureLossy(e)}} ELSE {})
 
 Init == l = 1
 Next == /\ l <= Len(Rec) /\ StrBad(Rec[l]) = {} /\ l' = l + 1
